@@ -9,12 +9,15 @@ package main
 
 import (
 	"bufio"
+	"bytes"
 	"context"
 	"encoding/json"
 	"flag"
 	"fmt"
+	"io"
 	"math/rand"
 	"net/http"
+	"net/http/httptest"
 	"net/url"
 	"os"
 	"strings"
@@ -142,6 +145,43 @@ func construct(base string, rp string, query *string, json bool) result {
 	return result{full: r.URL.String(), escaped: r.URL.EscapedPath(), rawQuery: r.URL.RawQuery}
 }
 
+// constructTunnelled builds the request with a tunnelling threshold of 1 (every non-empty query is tunnelled) and hands it
+// to the server side's DecodeTunnelledQuery: the URL the server sees must again be the specified one, byte for byte
+func constructTunnelled(base string, rp string, query *string, json bool) result {
+	u, err := url.Parse(base)
+	if err != nil {
+		return result{err: err}
+	}
+	c := &restli.Client{HostnameResolver: &restli.SimpleHostnameResolver{Hostname: u}, QueryTunnellingThreshold: 1}
+	var q restli.QueryParamsEncoder
+	if query != nil {
+		q = restli.QueryParamsString(*query)
+	}
+	var r *http.Request
+	if json {
+		r, err = restli.NewJsonRequest(c, context.Background(), restli.ResourcePathString(rp), q, "PUT", restli.Method_update, emptyBody{}, nil)
+	} else {
+		r, err = restli.NewGetRequest(c, context.Background(), restli.ResourcePathString(rp), q, restli.Method_get)
+	}
+	if err != nil {
+		return result{err: err}
+	}
+	var body []byte
+	if r.Body != nil {
+		body, _ = io.ReadAll(r.Body)
+	}
+	sreq := httptest.NewRequest(r.Method, r.URL.RequestURI(), bytes.NewReader(body))
+	sreq.Header = r.Header.Clone()
+	if err := restli.DecodeTunnelledQuery(sreq); err != nil {
+		return result{err: fmt.Errorf("the server side cannot de-tunnel the request: %w", err)}
+	}
+	full := sreq.URL.RequestURI()
+	if u.Host != "" {
+		full = u.Scheme + "://" + u.Host + full
+	}
+	return result{full: full, escaped: sreq.URL.EscapedPath(), rawQuery: sreq.URL.RawQuery}
+}
+
 func classify(ctx, rp []string) string {
 	for _, k := range rp {
 		if k == "." || k == ".." {
@@ -168,6 +208,8 @@ func main() {
 	queries := map[string]*string{"none": nil}
 	p, q := "a=b&c=List(1,2)", "q=x%20y%2Fz&p=%25&e=''"
 	queries["plain"], queries["pct"] = &p, &q
+	e := "" // present but empty: the request still says "?"
+	queries["empty"] = &e
 	switch *mode {
 	case "replay":
 		f, err := os.Open(*in)
@@ -190,10 +232,15 @@ func main() {
 			rp := "/" + strings.Join(row.Rp, "/")
 			wantPath := "/" + strings.Join(row.Path, "/")
 			query := queries[row.Query]
-			for _, kind := range []string{"get-request", "json-request", "delete-call", "update-call"} {
-				js := kind == "json-request"
+			for _, kind := range []string{"get-request", "json-request", "delete-call", "update-call", "get-request-tunnelled", "json-request-tunnelled"} {
+				js := strings.HasPrefix(kind, "json-request")
 				var r result
-				if strings.HasSuffix(kind, "-call") {
+				if strings.HasSuffix(kind, "-tunnelled") {
+					if query == nil || *query == "" {
+						continue // nothing to tunnel
+					}
+					r = constructTunnelled(base, rp, query, js)
+				} else if strings.HasSuffix(kind, "-call") {
 					r = constructCall(base, rp, query, kind)
 				} else {
 					r = construct(base, rp, query, js)
